@@ -183,6 +183,19 @@ class Comment(Node):
         return "Comment(%r, %r)" % (self.text, (self.lineno, self.pos))
 
 
+def _filter_identifiers(filter_args):
+    """the identifiers a filter list reads, leaving out the names that
+    are filter shortcuts (h, x, n, decode.utf8, ...) where they stand for
+    a filter; as an argument of a filter call they are ordinary names."""
+
+    res = set()
+    for arg, code in zip(filter_args.args, filter_args.codeargs):
+        if arg in filters.DEFAULT_ESCAPES or arg.startswith("decode."):
+            continue
+        res.update(code.undeclared_identifiers)
+    return res
+
+
 class Expression(Node):
     """defines an inline expression.
 
@@ -203,9 +216,7 @@ class Expression(Node):
     def undeclared_identifiers(self):
         # TODO: make the "filter" shortcut list configurable at parse/gen time
         return self.code.undeclared_identifiers.union(
-            self.escapes_code.undeclared_identifiers.difference(
-                filters.DEFAULT_ESCAPES
-            )
+            _filter_identifiers(self.escapes_code)
         ).difference(self.code.declared_identifiers)
 
     def __repr__(self):
@@ -445,9 +456,9 @@ class TextTag(Tag):
         )
 
     def undeclared_identifiers(self):
-        return self.filter_args.undeclared_identifiers.difference(
-            filters.DEFAULT_ESCAPES.keys()
-        ).union(self.expression_undeclared_identifiers)
+        return _filter_identifiers(self.filter_args).union(
+            self.expression_undeclared_identifiers
+        )
 
 
 class DefTag(Tag):
@@ -503,11 +514,7 @@ class DefTag(Tag):
             )
         return (
             set(res)
-            .union(
-                self.filter_args.undeclared_identifiers.difference(
-                    filters.DEFAULT_ESCAPES.keys()
-                )
-            )
+            .union(_filter_identifiers(self.filter_args))
             .union(self.expression_undeclared_identifiers)
             .difference(self.function_decl.allargnames)
         )
@@ -566,11 +573,9 @@ class BlockTag(Tag):
         return self.body_decl.allargnames
 
     def undeclared_identifiers(self):
-        return (
-            self.filter_args.undeclared_identifiers.difference(
-                filters.DEFAULT_ESCAPES.keys()
-            )
-        ).union(self.expression_undeclared_identifiers)
+        return _filter_identifiers(self.filter_args).union(
+            self.expression_undeclared_identifiers
+        )
 
 
 class CallTag(Tag):
